@@ -90,8 +90,13 @@ class MuxComp(ExplicitComponent):
             raise ValueError('{3}: Cannot mux a {0}D inputs for {2} along axis greater '
                              'than {0} ({1})'.format(in_dimension, ax, name, self.msginfo))
 
+        out_val = options['val']
+        if np.ndim(out_val) > 0 and np.shape(out_val) != (1,):
+            # an array val has the shape of the inputs, so stack it to get the output value
+            out_val = np.stack([np.asarray(out_val)] * vec_size, axis=ax)
+
         self.add_output(name=name,
-                        val=options['val'],
+                        val=out_val,
                         shape=out_shape,
                         units=options['units'],
                         desc=options['desc'])
